@@ -91,7 +91,7 @@ func (c *Ctx) correspond(s *SuiteStat, cases []corrCase) {
 // operations the generated model (Gen_message.lean) implements
 func genEligible(line string) bool {
 	for _, p := range []string{"dec msg ", "dec hdr ", "dec pl-", "dec chain-", "enc msg ", "reenc msg ",
-		"dec eap ", "dec eapm-", "enc eap ", "reenc eap ", "akaset ", "akamac ", "akamac-built ", "akaprf ", "prfplus "} {
+		"dec eap ", "dec eapm-", "enc eap ", "reenc eap ", "akaset ", "akamac ", "akamac-built ", "akaprf ", "prfplus ", "dectr "} {
 		if strings.HasPrefix(line, p) {
 			return true
 		}
@@ -122,6 +122,10 @@ func (c *Ctx) correspondGenerated(s *SuiteStat, cases []corrCase) {
 	}
 	for k, i := range idx {
 		cs := cases[i]
+		if res[k] == "unsupported" { // an operation on a part of the code that is not translated
+			s.Dist["generated-model-unsupported"]++
+			continue
+		}
 		s.Dist["generated-model-cases"]++
 		if res[k] != cs.goRes {
 			s.Dist["disagree"]++
